@@ -264,6 +264,9 @@ deriving DecidableEq, Repr
 /-- what the goroutine owning the other handle of a stream clone does with it -/
 inductive Sib
   | discard | read
+  /-- the owner returns without consuming or discarding the handle (a violation of the contract of
+  `CloneStream`; e.g. a task body with an early exit in front of `sink.Put(ctx, digest, b2)`) -/
+  | abandon
 deriving DecidableEq, Repr
 
 inductive Out
@@ -733,5 +736,44 @@ def blockedAt (dep : Nat → Bool) : List Ev → List Nat → Option Nat
   | [], _ => none
   | .closed t :: rest, seen => blockedAt dep rest (t :: seen)
   | .wait t :: rest, seen => if dep t && !seen.contains t then some t else blockedAt dep rest seen
+
+/-! ### handles that are never consumed -/
+
+/-- `CloneStream` of this buffer yields handles that have to meet (a `casClonedBuffer`) -/
+def needsPeers : Buf → Bool
+  | .stream _ _ _ _ => true
+  | .cloned _ _ _ => true
+  | .eh _ _ => true
+  | .task base _ _ _ => needsPeers base
+  | _ => false
+
+def peersOf (env : Env) (e : BufExpr) : Bool :=
+  match build env e 0 with
+  | some (b, _) => needsPeers b
+  | none => false
+
+/-- The program abandons a handle of a stream clone: whoever consumes or discards another handle
+of that clone waits in `toChunkReader` for ever (`C15_unconsumed_handle_blocks`), the source is
+neither read nor closed. -/
+def blocks (env : Env) : BufExpr → Bool
+  | .base _ => false
+  | .cloneStream e _ s => blocks env e || (s == .abandon && peersOf env e)
+  | .cloneCopy e _ => blocks env e
+  | .withTask e _ => blocks env e
+  | .withErrorHandler e => blocks env e
+  | .replicate e _ s _ => blocks env e || (s == .abandon && peersOf env e)
+
+def usesAbandon : BufExpr → Bool
+  | .base _ => false
+  | .cloneStream e _ s => usesAbandon e || s == .abandon
+  | .cloneCopy e _ => usesAbandon e
+  | .withTask e _ => usesAbandon e
+  | .withErrorHandler e => usesAbandon e
+  | .replicate e _ s _ => usesAbandon e || s == .abandon
+
+/-- an action of the negotiation is performed on behalf of handle `i` -/
+def NAct.who : NAct → Nat
+  | .clone i => i
+  | .consume i _ _ => i
 
 end BB.Mux
